@@ -247,6 +247,8 @@ def cv_cases():
             # the same system translated along the order-parameter axis (all values are multiples of 1/4: exact); the
             # negatives of the cap values put the cap, an interface or lambda_-1 on 0.0
             "shift": st.sampled_from([0.0, 0.0, -1.0, -1.25, -1.5, -2.0, -2.5, -3.0, 0.25, 1.0]),
+            # a move list longer than the interface list is legal (only a shorter one is rejected): the surplus entries mean nothing
+            "extra_moves": st.lists(st.sampled_from(["sh", "wf"]), max_size=2),
         }
     )
 
@@ -269,6 +271,7 @@ def body_cv(rec, c):
     moves = moves[: len(intf)]
     while len(moves) < len(intf):
         moves.append("sh")
+    call_moves = moves + list(c.get("extra_moves", []))
     path = mk_path(o)
     mx = max(o)
     cap = c["cap"]
@@ -277,7 +280,7 @@ def body_cv(rec, c):
     sh = c.get("shift", 0.0)
     if sh:
         path = mk_path([x + sh for x in o])
-    got = calc_cv_vector(path, [x + sh for x in intf], moves, lambda_minus_one=(c["lm1"] + sh if c["lm1"] is not False else False),
+    got = calc_cv_vector(path, [x + sh for x in intf], call_moves, lambda_minus_one=(c["lm1"] + sh if c["lm1"] is not False else False),
                          cap=(cap + sh if cap is not None else None), minus=c["minus"])
     on = any(x in intf for x in o)
     rec.case(key=c, nontrivial=("wf" in moves[1:]) or on, classes=["cv", "cv:minus" if c["minus"] else "cv:plus"]
